@@ -1876,7 +1876,8 @@ def run_corpus_script(ck, hbin, name, script, hchk=None):
     ops = []
     for l in rest:
         t = l.split()
-        ops.append((t[3] if t[0] == "rnd" else t[0], l))
+        rt_ = t[3] if t[0] == "rnd" else t[0]
+        ops.append(("pshort" if rt_ == "pshorto" else rt_, l))
     return run_scenario(ck, hbin, hchk, sc, ops, "corpus", name)
 
 
